@@ -75,6 +75,32 @@ CLAIMED["C08"] = dict(
     technique="Coq proof (path soundness/completeness, memoized once) + vm_compute correspondence on 10 entry points",
     design="4/C08")
 
+CLAIMED["C06"] = dict(
+    text=("Gallina model of Buildable.__eq__ (Eq.cfg_eq: values-or-defaults compared with Python ==, then "
+          "multiset equality of the first-visit paths of a defaults-aware memoized traversal); theorems: "
+          "equivalence relation on well-formed heaps; evaluated in Coq against the implementation's == on pairs "
+          "related by labelled rewrites; the oracle checks never-raises, reflexive, symmetric, != negation, "
+          "transitivity along rewrite chains, and agreement with a ground-truth canonical form (defaults filled "
+          "in, dict order / history / tags ignored, sharing labelled), which implies congruence with build."),
+    note=COMMON_NOTE + " Known findings at _compare_buildable: a redirected alias is invisible; dict insertion "
+         "order changes first-visit paths of objects shared inside one dict. Leaves: bool==int modelled, "
+         "integer-valued floats avoided by the generator.",
+    technique="Coq proof (equivalence of the model's ==) + vm_compute correspondence on rewrite-related pairs",
+    design="4/C06")
+CLAIMED["C07"] = dict(
+    text=("deepcopy / pickle round trip modelled as instances of the generic memoized traversal (incl. "
+          "copy._deepcopy_tuple's identity rule), copy.copy and fdl.cast as re-flattening of the top node; "
+          "theorems: the copy mirrors the original under the memo map, is allocated entirely after the input "
+          "heap (disjoint), shallow copies share exactly the argument references, cast changes only the kind; "
+          "soundness of the isomorphism checker used by all correspondence streams. Evaluated in Coq against the "
+          "implementation up to sharing-preserving isomorphism; the oracle checks faithfulness, identity "
+          "disjointness of every mutable part (Buildables, containers, __arguments__, tag sets, history lists) "
+          "and that 1-6 random edits of the copy leave the original's canonical form and build unchanged."),
+    note=COMMON_NOTE + " copy.deepcopy and pickle are library code (their memoize-by-identity semantics is "
+         "modelled and validated by the stream).",
+    technique="Coq proof (copy mirrors + disjoint, iso checker soundness) + vm_compute correspondence + edit-frame oracle",
+    design="4/C07")
+
 PENDING_REASON = "check not built yet in this session (work in progress; see DESIGN.md section 4)"
 
 
